@@ -168,6 +168,24 @@ def write_shard(path: str, schemas: dict, cases: list) -> None:
         json.dump({"schemas": schemas, "cases": cases}, f, separators=(",", ":"))
 
 
+# a few classes that carry a bytes / records payload in legacy and compact form, nested and not: one
+# instance each with a payload just above 1 MiB (chunked reads and writes have their boundaries there)
+HUGE_CLASSES = [("kio.schema.sasl_authenticate.v0.request", "SaslAuthenticateRequest"),
+                ("kio.schema.sasl_authenticate.v2.request", "SaslAuthenticateRequest"),
+                ("kio.schema.produce.v3.request", "ProduceRequest"),
+                ("kio.schema.produce.v9.request", "ProduceRequest")]
+HUGE_LENGTHS = [1048577, 1048581]
+
+
+def huge_instances(seed: int, wire_domain: bool = False):
+    import importlib
+    for j, (mod, name) in enumerate(HUGE_CLASSES):
+        cls = getattr(importlib.import_module(mod), name)
+        schema = project.project_schema(cls)
+        s = Sampler(seed * 131 + j, profile="big", big_lengths=[HUGE_LENGTHS[(seed + j) % 2]], wire_domain=wire_domain)
+        yield j, cls, schema, s.value(schema)
+
+
 def gen_wr_shard(args) -> dict:
     """Worker: classes[lo:hi] x per_class sampled instances -> one shard file."""
     limit_memory()
@@ -188,6 +206,12 @@ def gen_wr_shard(args) -> dict:
             if c is None:
                 skipped += 1
             else:
+                cases.append(c)
+    if lo == 0:
+        for j, cls, schema, aval in huge_instances(seed):
+            schemas[schema["sid"]] = schema
+            c = wr_case(f"huge{j}", cls, schema, aval, random.Random(seed + j))
+            if c is not None:
                 cases.append(c)
     write_shard(shard_path, schemas, cases)
     return {"path": shard_path, "cases": len(cases), "skipped": skipped,
@@ -230,6 +254,10 @@ def gen_rw_inputs(args) -> dict:
             aval = s.value(schema)
             var = sample_variant(r, canonical=canonical or not schema["flex"])
             cases.append({"id": f"r{ci}_{k}", "sid": schema["sid"], "value": aval, "var": var})
+    if lo == 0:
+        for j, cls, schema, aval in huge_instances(seed, wire_domain=True):
+            schemas[schema["sid"]] = schema
+            cases.append({"id": f"rhuge{j}", "sid": schema["sid"], "value": aval, "var": dict(CANON_VAR)})
     write_shard(path, schemas, cases)
     return {"path": path, "cases": len(cases)}
 
